@@ -46,7 +46,8 @@ pub enum E {
     If(usize, Box<E>, Option<Box<E>>, Box<E>, Box<E>),
     Let(usize, T, Box<E>, Box<E>),
     Call(usize, Vec<E>),
-    Ctor(String, Vec<E>),
+    /// constructor name, arguments, type of the constructed value
+    Ctor(String, Vec<E>, T),
     Case(Box<E>, T, Vec<(String, Vec<usize>, E)>),
     New(Vec<(String, Vec<usize>, E)>),
     Dtor(Box<E>, T, String, Vec<E>),
@@ -155,6 +156,15 @@ pub struct FunProg {
     pub args: Vec<i64>,
     pub has_shadowing: bool,
     pub size: usize,
+    /// the generated tree itself (signatures and bodies), input of the generator-side reference
+    pub tree: std::rc::Rc<FunTree>,
+}
+
+#[derive(Clone, Debug)]
+pub struct FunTree {
+    pub sigs: Vec<DefSig>,
+    /// body of definition i
+    pub bodies: Vec<E>,
 }
 
 #[derive(Clone, Debug)]
@@ -395,7 +405,7 @@ impl<'a> G<'a> {
                     let at = inst(a, args);
                     es.push(self.pure(&at, sc, depth + 1));
                 }
-                E::Ctor(x.0.to_string(), es)
+                E::Ctor(x.0.to_string(), es, t.clone())
             }
         }
     }
@@ -440,7 +450,8 @@ impl<'a> G<'a> {
             let at = inst(a, args);
             if at == T::I { E::Lit(0) } else { self.min_data(&at) }
         });
-        E::Ctor(x.0.to_string(), es.collect())
+        let es: Vec<E> = es.collect();
+        E::Ctor(x.0.to_string(), es, t.clone())
     }
 
     fn case_on_var(&mut self, t: &T, sc: &Scope, depth: usize, eff: bool) -> Option<E> {
@@ -604,7 +615,7 @@ impl<'a> G<'a> {
                         let at = inst(a, args);
                         if self.is_codata(&at) { es.push(self.pure(&at, sc, depth + 2)) } else { es.push(self.eff(&at, sc, depth + 2)) }
                     }
-                    return E::Ctor(x.0.to_string(), es);
+                    return E::Ctor(x.0.to_string(), es, t.clone());
                 }
                 _ => {}
             }
@@ -738,7 +749,7 @@ fn free_vars(e: &E, out: &mut Vec<usize>) {
             free_vars(body, &mut inner);
             out.extend(inner.into_iter().filter(|v| v != x));
         }
-        E::Call(_, es) | E::Ctor(_, es) => es.iter().for_each(|e| free_vars(e, out)),
+        E::Call(_, es) | E::Ctor(_, es, _) => es.iter().for_each(|e| free_vars(e, out)),
         E::Case(s, _, cls) => {
             free_vars(s, out);
             for (_, ids, b) in cls {
@@ -830,7 +841,7 @@ fn assign(e: &E, nm: &mut Namer, rng: &mut Rng, visible: &mut Vec<usize>, pct: u
             assign(body, nm, rng, visible, pct, shadowed);
             visible.pop();
         }
-        E::Call(_, es) | E::Ctor(_, es) => es.iter().for_each(|e| assign(e, nm, rng, visible, pct, shadowed)),
+        E::Call(_, es) | E::Ctor(_, es, _) => es.iter().for_each(|e| assign(e, nm, rng, visible, pct, shadowed)),
         E::Case(s, _, cls) => {
             assign(s, nm, rng, visible, pct, shadowed);
             for (_, ids, b) in cls {
@@ -903,7 +914,7 @@ fn deshadow(e: &E, shad: &Namer, out: &mut Namer, visible: &mut Vec<usize>) {
             deshadow(body, shad, out, visible);
             visible.pop();
         }
-        E::Call(_, es) | E::Ctor(_, es) => es.iter().for_each(|e| deshadow(e, shad, out, visible)),
+        E::Call(_, es) | E::Ctor(_, es, _) => es.iter().for_each(|e| deshadow(e, shad, out, visible)),
         E::Case(s, _, cls) => {
             deshadow(s, shad, out, visible);
             for (_, ids, b) in cls {
@@ -967,17 +978,24 @@ fn show(e: &E, names: &dyn Fn(usize) -> String, sigs: &[DefSig], ind: usize) -> 
         }
         E::If(sort, c, snd, a, b) => {
             let ops = ["==", "!=", "<", "<=", ">", ">="];
-            let rhs = match snd {
-                Some(x) => format!("({})", s(x)),
-                None => "0".to_string(),
+            let ct = s(c);
+            let cond = match snd {
+                Some(x) => format!("({ct}) {} ({})", ops[*sort], s(x)),
+                // comparison with zero: the sugar exists with the zero on either side; which
+                // spelling is used depends on the text of the operand only (no PRNG draw in the printer)
+                None if (ct.len() + *sort) % 3 == 0 => {
+                    let mirrored = ["==", "!=", ">", ">=", "<", "<="];
+                    format!("0 {} ({ct})", mirrored[*sort])
+                }
+                None => format!("({ct}) {} 0", ops[*sort]),
             };
-            format!("(if ({}) {} {rhs} {{\n{pad}  {}\n{pad}}} else {{\n{pad}  {}\n{pad}}})", s(c), ops[*sort], s(a), s(b))
+            format!("(if {cond} {{\n{pad}  {}\n{pad}}} else {{\n{pad}  {}\n{pad}}})", s(a), s(b))
         }
         E::Let(x, t, b, body) => format!("(let {}: {} = {};\n{pad}{})", names(*x), t.show(), s(b), show(body, names, sigs, ind)),
         E::Call(d, es) if *d == usize::MAX => format!("repeat0({})", es.iter().map(&s).collect::<Vec<_>>().join(", ")),
         E::Call(d, es) => format!("{}({})", sigs[*d].name, es.iter().map(&s).collect::<Vec<_>>().join(", ")),
-        E::Ctor(n, es) if es.is_empty() => n.clone(),
-        E::Ctor(n, es) => format!("{n}({})", es.iter().map(&s).collect::<Vec<_>>().join(", ")),
+        E::Ctor(n, es, _) if es.is_empty() => n.clone(),
+        E::Ctor(n, es, _) => format!("{n}({})", es.iter().map(&s).collect::<Vec<_>>().join(", ")),
         E::Case(sc, t, cls) => {
             let cs: Vec<String> = cls
                 .iter()
@@ -1126,7 +1144,8 @@ pub fn generate(rng: &mut Rng, cfg: &FunCfg) -> FunProg {
             _ => g.rng.range(-5, 30),
         })
         .collect();
-    FunProg { shadowed: text_s, unique: text_u, deshadowed: text_d, args, has_shadowing, size: total }
+    let tree = std::rc::Rc::new(FunTree { sigs: sigs.clone(), bodies: bodies.iter().map(|(_, b)| b.clone()).collect() });
+    FunProg { shadowed: text_s, unique: text_u, deshadowed: text_d, args, has_shadowing, size: total, tree }
 }
 
 /// calls to the impossible definition (usize::MAX) are replaced by a literal-free fallback
@@ -1153,7 +1172,7 @@ fn fix_invalid_calls(e: &mut E) {
             fix_invalid_calls(a);
             fix_invalid_calls(b);
         }
-        E::Ctor(_, es) => es.iter_mut().for_each(fix_invalid_calls),
+        E::Ctor(_, es, _) => es.iter_mut().for_each(fix_invalid_calls),
         E::Case(s, _, cls) => {
             fix_invalid_calls(s);
             cls.iter_mut().for_each(|(_, _, b)| fix_invalid_calls(b));
